@@ -325,6 +325,26 @@ Definition try_send (c : config) (ch : choice) (sub : cid) (ev : Z) (timeout : Z
 
 Definition after_send (wg : bool) (k : callid) (p : pair) : pc := if wg then PGoDone k p else PExit.
 
+(* o.send(ev, sub, timeout, onTimeout) up to and including the channel
+   operation, by thread t for pair p of call k: SendTimeout's send or select.
+   [pc_sent] is where the thread continues when send() has returned,
+   [pc_cb] where it continues to call onTimeout. *)
+Definition step_send (c : config) (t : tid) (th : thread) (ch : choice) (k : callid) (p : pair)
+           (timeout : Z) (cb : bool) (pc_sent pc_cb : pc) : option config :=
+  match try_send c ch (p_sub p) (p_ev p) timeout with
+  | SBlocked => None
+  | SPanic => Some (do_panic c t SendOnClosed)
+  | SSentBuf chans' =>
+      Some (log (set_thread (set_chans c chans') t (with_pc th pc_sent)) [EDone k p; EHandoff k p])
+  | SSentTo r thr =>
+      Some (log (set_thread (set_thread c r (deliver thr (p_ev p))) t (with_pc th pc_sent))
+                [EDone k p; ERecv r (p_sub p) (p_ev p); EHandoff k p])
+  | STimedOut =>
+      if cb
+      then Some (log (set_thread c t (with_pc th pc_cb)) [ETimeout k p])
+      else Some (log (set_thread c t (with_pc th pc_sent)) [EDone k p; ETimeout k p])
+  end.
+
 (* ---- the step function ---- *)
 
 Definition is_slice_call (cl : call) : bool := match cl with CPubSlice _ _ _ => true | _ => false end.
@@ -445,19 +465,7 @@ Definition step (c : config) (t : tid) (ch : choice) : option config :=
         | Some ob =>
           match snd (k_var k) with
           | Sync =>
-              match try_send c ch (p_sub p) (p_ev p) (o_timeout ob) with
-              | SBlocked => None
-              | SPanic => Some (do_panic c t SendOnClosed)
-              | SSentBuf chans' =>
-                  Some (log (set_thread (set_chans c chans') t (with_pc th (PLoop k o ps))) [EDone k p; EHandoff k p])
-              | SSentTo r thr =>
-                  Some (log (set_thread (set_thread c r (deliver thr (p_ev p))) t (with_pc th (PLoop k o ps)))
-                            [EDone k p; ERecv r (p_sub p) (p_ev p); EHandoff k p])
-              | STimedOut =>
-                  if o_cb ob
-                  then Some (log (set_thread c t (with_pc th (PSyncCb k o p ps))) [ETimeout k p])
-                  else Some (log (set_thread c t (with_pc th (PLoop k o ps))) [EDone k p; ETimeout k p])
-              end
+              step_send c t th ch k p (o_timeout ob) (o_cb ob) (PLoop k o ps) (PSyncCb k o p ps)
           | w =>
               Some (spawn (set_thread c t (with_pc th (PLoop k o ps)))
                           (Thread [] (PGoSend k p (o_timeout ob) (o_cb ob) (match w with Wait => true | _ => false end)) []))
@@ -480,19 +488,7 @@ Definition step (c : config) (t : tid) (ch : choice) : option config :=
         then Some (log (set_thread c t (returns th RUnit)) [EPubRet k])
         else None
     | PGoSend k p timeout cb wg =>
-        match try_send c ch (p_sub p) (p_ev p) timeout with
-        | SBlocked => None
-        | SPanic => Some (do_panic c t SendOnClosed)
-        | SSentBuf chans' =>
-            Some (log (set_thread (set_chans c chans') t (with_pc th (after_send wg k p))) [EDone k p; EHandoff k p])
-        | SSentTo r thr =>
-            Some (log (set_thread (set_thread c r (deliver thr (p_ev p))) t (with_pc th (after_send wg k p)))
-                      [EDone k p; ERecv r (p_sub p) (p_ev p); EHandoff k p])
-        | STimedOut =>
-            if cb
-            then Some (log (set_thread c t (with_pc th (PGoCb k p wg))) [ETimeout k p])
-            else Some (log (set_thread c t (with_pc th (after_send wg k p))) [EDone k p; ETimeout k p])
-        end
+        step_send c t th ch k p timeout cb (after_send wg k p) (PGoCb k p wg)
     | PGoCb k p wg =>
         Some (log (set_thread c t (with_pc th (after_send wg k p))) [EDone k p; ECallback k p])
     | PGoDone k p =>
